@@ -402,6 +402,9 @@ func (b *Builder) AddDeviate(o interface{}) *AddDeviate {
 	d, valid := o.(*Deviation)
 	if !valid {
 		b.setErr(fmt.Errorf("%T does not allow deviate, only deviations do", o))
+	} else if d.Add != nil {
+		// a second deviate add statement goes on where the first stopped
+		return d.Add
 	} else {
 		d.Add = &add
 	}
@@ -413,6 +416,8 @@ func (b *Builder) ReplaceDeviate(o interface{}) *ReplaceDeviate {
 	d, valid := o.(*Deviation)
 	if !valid {
 		b.setErr(fmt.Errorf("%T does not allow deviate, only deviations do", o))
+	} else if d.Replace != nil {
+		return d.Replace
 	} else {
 		d.Replace = &x
 	}
@@ -424,6 +429,8 @@ func (b *Builder) DeleteDeviate(o interface{}) *DeleteDeviate {
 	d, valid := o.(*Deviation)
 	if !valid {
 		b.setErr(fmt.Errorf("%T does not allow deviate, only deviations do", o))
+	} else if d.Delete != nil {
+		return d.Delete
 	} else {
 		d.Delete = &x
 	}
